@@ -1,52 +1,581 @@
 (* Ports/PortProofsC12.v — proofs for property C12 (model: PortModel.v, specification: PortSpec.v). *)
-From Coq Require Import List ZArith String Bool Lia.
+From Coq Require Import List ZArith String Bool Ascii Lia.
 From Plumpy Require Import Val PortModel PortSpec.
 Import ListNotations.
+
+(* ================= association lists ================= *)
+
+Lemma alist_get_set_same : forall (A : Type) (k : string) (v : A) (l : list (string * A)),
+  alist_get k (alist_set k v l) = Some v.
+Proof.
+  intros A k v l. induction l as [|[k' v'] l IH]; simpl.
+  - rewrite String.eqb_refl. reflexivity.
+  - destruct (String.eqb k k') eqn:E; simpl.
+    + rewrite String.eqb_refl. reflexivity.
+    + rewrite E. exact IH.
+Qed.
+
+Lemma alist_get_set_other : forall (A : Type) (k k' : string) (v : A) (l : list (string * A)),
+  k' <> k -> alist_get k' (alist_set k v l) = alist_get k' l.
+Proof.
+  intros A k k' v l Hne.
+  assert (Hkk : String.eqb k' k = false) by (apply String.eqb_neq; exact Hne).
+  induction l as [|[k2 v2] l IH]; simpl.
+  - rewrite Hkk. reflexivity.
+  - destruct (String.eqb k k2) eqn:E; simpl.
+    + apply String.eqb_eq in E. subst k2. rewrite Hkk. reflexivity.
+    + rewrite IH. reflexivity.
+Qed.
+
+Lemma alist_mem_set_other : forall (A : Type) (k k' : string) (v : A) (l : list (string * A)),
+  k' <> k -> alist_mem k' (alist_set k v l) = alist_mem k' l.
+Proof.
+  intros A k k' v l Hne. unfold alist_mem. rewrite alist_get_set_other by exact Hne. reflexivity.
+Qed.
+
+Lemma keys_unique_set : forall (A : Type) (k : string) (v : A) (l : list (string * A)),
+  keys_unique (alist_set k v l) = keys_unique l.
+Proof.
+  intros A k v l. induction l as [|[k2 v2] l IH]; simpl.
+  - reflexivity.
+  - destruct (String.eqb k k2) eqn:E; simpl.
+    + apply String.eqb_eq in E. subst k2. reflexivity.
+    + rewrite IH. rewrite alist_mem_set_other; [reflexivity|].
+      intro Heq. subst k2. rewrite String.eqb_refl in E. discriminate E.
+Qed.
+
+(* ================= wf_val on dicts ================= *)
+
+Definition wf_items (l : list (string * val)) : bool := forallb (fun kv => wf_val (snd kv)) l.
+
+Lemma wf_val_dict : forall m, wf_val (VDict m) = keys_unique m && wf_items m.
+Proof.
+  intro m. simpl. f_equal.
+  induction m as [|[k x] m IH]; simpl.
+  - reflexivity.
+  - rewrite IH. reflexivity.
+Qed.
+
+Lemma wf_kvs_eq : forall m, wf_kvs m = keys_unique m && wf_items m.
+Proof. intro m. unfold wf_kvs. apply wf_val_dict. Qed.
+
+Lemma wf_items_set : forall k v l,
+  wf_val v = true -> wf_items l = true -> wf_items (alist_set k v l) = true.
+Proof.
+  intros k v l Hv. induction l as [|[k2 v2] l IH]; simpl; intro Hl.
+  - rewrite Hv. reflexivity.
+  - apply andb_true_iff in Hl. destruct Hl as [Hv2 Hl].
+    destruct (String.eqb k k2); simpl.
+    + rewrite Hv, Hl. reflexivity.
+    + rewrite Hv2, (IH Hl). reflexivity.
+Qed.
+
+Lemma wf_items_get : forall k l x,
+  wf_items l = true -> alist_get k l = Some x -> wf_val x = true.
+Proof.
+  intros k l x. induction l as [|[k2 v2] l IH]; simpl; intros Hl Hg.
+  - discriminate Hg.
+  - apply andb_true_iff in Hl. destruct Hl as [Hv2 Hl].
+    destruct (String.eqb k k2).
+    + injection Hg as <-. exact Hv2.
+    + exact (IH Hl Hg).
+Qed.
+
+Lemma wf_kvs_set : forall k v l,
+  wf_val v = true -> wf_kvs l = true -> wf_kvs (alist_set k v l) = true.
+Proof.
+  intros k v l Hv Hl. rewrite wf_kvs_eq in *. apply andb_true_iff in Hl. destruct Hl as [Hu Hi].
+  rewrite keys_unique_set, Hu, (wf_items_set k v l Hv Hi). reflexivity.
+Qed.
+
+Lemma wf_kvs_get_dict : forall k l sub,
+  wf_kvs l = true -> alist_get k l = Some (VDict sub) -> wf_kvs sub = true.
+Proof.
+  intros k l sub Hl Hg. rewrite wf_kvs_eq in Hl. apply andb_true_iff in Hl. destruct Hl as [_ Hi].
+  exact (wf_items_get k l (VDict sub) Hi Hg).
+Qed.
+
+(* ================= split_on / split_path ================= *)
+
+Lemma split_on_nonempty : forall sep s, split_on sep s <> [].
+Proof.
+  intros sep s. induction s as [|c s IH]; simpl.
+  - discriminate.
+  - destruct (Ascii.eqb c sep); [discriminate|].
+    destruct (split_on sep s); discriminate.
+Qed.
+
+Lemma split_path_snoc : forall path,
+  split_path path = removelast (split_path path) ++ [last (split_path path) EmptyString].
+Proof.
+  intro path. apply app_removelast_last. apply split_on_nonempty.
+Qed.
+
+Lemma split_path_sep_free : forall s, sep_free s = true -> split_path s = [s].
+Proof.
+  unfold split_path. intro s. induction s as [|c s IH]; simpl; intro Hs.
+  - reflexivity.
+  - apply andb_true_iff in Hs. destruct Hs as [Hc Hs].
+    apply negb_true_iff in Hc. rewrite Hc. rewrite (IH Hs). reflexivity.
+Qed.
+
+Lemma split_path_good_name : forall s, good_name s = true -> split_path s = [s].
+Proof.
+  intros s Hs. unfold good_name in Hs. apply andb_true_iff in Hs. destruct Hs as [Hs _].
+  apply split_path_sep_free. exact Hs.
+Qed.
+
+Lemma hd_snoc : forall (ns : list string) (name d : string), hd d (ns ++ [name]) = hd name ns.
+Proof. intros ns name d. destruct ns; reflexivity. Qed.
+
+(* a dotted path made of separator-free components splits back into those components *)
+Fixpoint join_path (ns : list string) (name : string) : string :=
+  match ns with
+  | [] => name
+  | c :: rest => String.append c (String "."%char (join_path rest name))
+  end.
+
+Lemma split_on_append : forall c s,
+  sep_free c = true ->
+  split_on "."%char (String.append c (String "."%char s)) = c :: split_on "."%char s.
+Proof.
+  intros c s. induction c as [|x c IH]; simpl; intro Hc.
+  - reflexivity.
+  - apply andb_true_iff in Hc. destruct Hc as [Hx Hc]. apply negb_true_iff in Hx.
+    rewrite Hx. rewrite (IH Hc). reflexivity.
+Qed.
+
+Lemma split_path_join : forall ns name,
+  forallb sep_free ns = true -> sep_free name = true ->
+  split_path (join_path ns name) = ns ++ [name].
+Proof.
+  intros ns name. induction ns as [|c ns IH]; simpl; intros Hns Hname.
+  - apply split_path_sep_free. exact Hname.
+  - apply andb_true_iff in Hns. destruct Hns as [Hc Hns].
+    unfold split_path in *. rewrite split_on_append by exact Hc.
+    rewrite (IH Hns Hname). reflexivity.
+Qed.
+
+(* ================= outputs_insert ================= *)
+
+Lemma outputs_insert_lookup : forall comps name v outs outs',
+  outputs_insert comps name v outs = inr outs' ->
+  lookup_val (comps ++ [name]) (VDict outs') = Some v.
+Proof.
+  intros comps name v. induction comps as [|c comps IH]; intros outs outs' H; simpl in H.
+  - injection H as <-. simpl. rewrite alist_get_set_same. reflexivity.
+  - destruct (alist_get c outs) as [x|] eqn:Eg.
+    + destruct x as [| | | | | |sub|]; try discriminate H.
+      destruct (outputs_insert comps name v sub) as [e|sub'] eqn:Ei; [discriminate H|].
+      injection H as <-. simpl. rewrite alist_get_set_same. exact (IH _ _ Ei).
+    + destruct (outputs_insert comps name v []) as [e|sub'] eqn:Ei; [discriminate H|].
+      injection H as <-. simpl. rewrite alist_get_set_same. exact (IH _ _ Ei).
+Qed.
+
+Lemma outputs_insert_frame : forall comps name v outs outs',
+  outputs_insert comps name v outs = inr outs' ->
+  forall k, k <> hd name comps -> alist_get k outs' = alist_get k outs.
+Proof.
+  intros comps name v outs outs' H k Hk. destruct comps as [|c comps]; simpl in H, Hk.
+  - injection H as <-. apply alist_get_set_other. exact Hk.
+  - destruct (alist_get c outs) as [x|] eqn:Eg.
+    + destruct x as [| | | | | |sub|]; try discriminate H.
+      destruct (outputs_insert comps name v sub) as [e|sub'] eqn:Ei; [discriminate H|].
+      injection H as <-. apply alist_get_set_other. exact Hk.
+    + destruct (outputs_insert comps name v []) as [e|sub'] eqn:Ei; [discriminate H|].
+      injection H as <-. apply alist_get_set_other. exact Hk.
+Qed.
+
+Lemma outputs_insert_error : forall comps name v outs e,
+  outputs_insert comps name v outs = inl e -> e = EAttribute.
+Proof.
+  intros comps name v. induction comps as [|c comps IH]; intros outs e H; simpl in H.
+  - discriminate H.
+  - destruct (alist_get c outs) as [x|] eqn:Eg.
+    + destruct x as [| | | | | |sub|]; try (injection H as <-; reflexivity).
+      destruct (outputs_insert comps name v sub) as [e'|sub'] eqn:Ei; [|discriminate H].
+      injection H as <-. exact (IH _ _ Ei).
+    + destruct (outputs_insert comps name v []) as [e'|sub'] eqn:Ei; [|discriminate H].
+      injection H as <-. exact (IH _ _ Ei).
+Qed.
+
+Lemma outputs_insert_wf : forall comps name v outs outs',
+  wf_val v = true -> wf_kvs outs = true ->
+  outputs_insert comps name v outs = inr outs' -> wf_kvs outs' = true.
+Proof.
+  intros comps name v. induction comps as [|c comps IH]; intros outs outs' Hv Ho H; simpl in H.
+  - injection H as <-. apply wf_kvs_set; assumption.
+  - destruct (alist_get c outs) as [x|] eqn:Eg.
+    + destruct x as [| | | | | |sub|]; try discriminate H.
+      destruct (outputs_insert comps name v sub) as [e|sub'] eqn:Ei; [discriminate H|].
+      injection H as <-. apply wf_kvs_set; [|exact Ho].
+      change (wf_kvs sub' = true). apply (IH sub sub' Hv); [|exact Ei].
+      exact (wf_kvs_get_dict c outs sub Ho Eg).
+    + destruct (outputs_insert comps name v []) as [e|sub'] eqn:Ei; [discriminate H|].
+      injection H as <-. apply wf_kvs_set; [|exact Ho].
+      change (wf_kvs sub' = true). apply (IH [] sub' Hv); [reflexivity|exact Ei].
+Qed.
+
+(* ================= ports dict ================= *)
+
+Lemma ports_get_set_same : forall k p ps, ports_get k (ports_set k p ps) = Some p.
+Proof.
+  intros k p ps. induction ps as [|n q rest IH]; simpl.
+  - rewrite String.eqb_refl. reflexivity.
+  - destruct (String.eqb k n) eqn:E; simpl.
+    + rewrite String.eqb_refl. reflexivity.
+    + rewrite E. exact IH.
+Qed.
+
+Lemma ports_get_set_other : forall k k' p ps,
+  k' <> k -> ports_get k' (ports_set k p ps) = ports_get k' ps.
+Proof.
+  intros k k' p ps Hne.
+  assert (Hkk : String.eqb k' k = false) by (apply String.eqb_neq; exact Hne).
+  induction ps as [|n q rest IH]; simpl.
+  - rewrite Hkk. reflexivity.
+  - destruct (String.eqb k n) eqn:E; simpl.
+    + apply String.eqb_eq in E. subst n. rewrite Hkk. reflexivity.
+    + rewrite IH. reflexivity.
+Qed.
+
+Definition pmem (n : string) (ps : ports) : bool := existsb (String.eqb n) (ports_names ps).
+
+Lemma pmem_set : forall n k p ps, pmem n (ports_set k p ps) = String.eqb n k || pmem n ps.
+Proof.
+  intros n k p ps. unfold pmem. induction ps as [|n' q rest IH]; simpl.
+  - reflexivity.
+  - destruct (String.eqb k n') eqn:E; simpl.
+    + apply String.eqb_eq in E. subst n'. destruct (String.eqb n k); reflexivity.
+    + rewrite IH. destruct (String.eqb n n'), (String.eqb n k); reflexivity.
+Qed.
+
+Lemma names_unique_set : forall k p ps, names_unique (ports_set k p ps) = names_unique ps.
+Proof.
+  intros k p ps. induction ps as [|n' q rest IH]; simpl.
+  - reflexivity.
+  - destruct (String.eqb k n') eqn:E; simpl.
+    + apply String.eqb_eq in E. subst n'. reflexivity.
+    + rewrite IH. fold (pmem n' (ports_set k p rest)). rewrite pmem_set.
+      rewrite String.eqb_sym, E. reflexivity.
+Qed.
+
+Lemma wf_ports_set : forall k p ps,
+  wf_port p = true -> wf_ports ps = true -> wf_ports (ports_set k p ps) = true.
+Proof.
+  intros k p ps Hp. induction ps as [|n' q rest IH]; simpl; intro Hps.
+  - rewrite Hp. reflexivity.
+  - apply andb_true_iff in Hps. destruct Hps as [Hq Hrest].
+    destruct (String.eqb k n'); simpl.
+    + rewrite Hp, Hrest. reflexivity.
+    + rewrite Hq, (IH Hrest). reflexivity.
+Qed.
+
+Lemma wf_ports_get : forall k ps q,
+  wf_ports ps = true -> ports_get k ps = Some q -> wf_port q = true.
+Proof.
+  intros k ps q. induction ps as [|n' q' rest IH]; simpl; intros Hps Hg.
+  - discriminate Hg.
+  - apply andb_true_iff in Hps. destruct Hps as [Hq Hrest].
+    destruct (String.eqb k n').
+    + injection Hg as <-. exact Hq.
+    + exact (IH Hrest Hg).
+Qed.
+
+(* ================= get_port_dyn ================= *)
+
+(* the attributes of a namespace created on the fly by get_port(create_dynamically=True) *)
+Definition dyn_attrs (a : nattrs) : nattrs :=
+  set_valid_type (mk_nattrs (n_required a) None (n_default a) (n_validator a)
+                            (n_dynamic a) (n_populate a) None) (n_vt a).
+
+Lemma get_port_dyn_cons : forall c rest a ps,
+  get_port_dyn (c :: rest) a ps =
+  if String.eqb c EmptyString then inl EValue
+  else match ports_get c ps with
+       | None =>
+           if negb (n_dynamic a) then inl EValue
+           else match rest with
+                | [] => inr (ports_set c (PNs (dyn_attrs a) PNil) ps, PNs (dyn_attrs a) PNil)
+                | _ :: _ => match get_port_dyn rest (dyn_attrs a) PNil with
+                            | inl e => inl e
+                            | inr (sub', p) => inr (ports_set c (PNs (dyn_attrs a) sub') ps, p)
+                            end
+                end
+       | Some (PLeaf la) =>
+           match rest with
+           | [] => inr (ps, PLeaf la)
+           | _ :: _ => inl EAttribute
+           end
+       | Some (PNs na sub) =>
+           match rest with
+           | [] => inr (ps, PNs na sub)
+           | _ :: _ => match get_port_dyn rest na sub with
+                       | inl e => inl e
+                       | inr (sub', p) => inr (ports_set c (PNs na sub') ps, p)
+                       end
+           end
+       end.
+Proof.
+  intros c rest a ps. unfold dyn_attrs.
+  destruct a as [rq vt df vl dy po hl]. destruct vt; reflexivity.
+Qed.
+
+Lemma get_port_dyn_error : forall comps a ps e,
+  get_port_dyn comps a ps = inl e -> e = EValue \/ e = EAttribute.
+Proof.
+  intro comps. induction comps as [|c rest IH]; intros a ps e H.
+  - simpl in H. injection H as <-. left. reflexivity.
+  - rewrite get_port_dyn_cons in H.
+    destruct (String.eqb c EmptyString); [injection H as <-; left; reflexivity|].
+    destruct (ports_get c ps) as [[la|na sub]|].
+    + destruct rest; [discriminate H|]. injection H as <-. right. reflexivity.
+    + destruct rest as [|c' rest']; [discriminate H|].
+      destruct (get_port_dyn (c' :: rest') na sub) as [e'|[sub' p]] eqn:Er; [|discriminate H].
+      injection H as <-. exact (IH _ _ _ Er).
+    + destruct (negb (n_dynamic a)); [injection H as <-; left; reflexivity|].
+      destruct rest as [|c' rest']; [discriminate H|].
+      destruct (get_port_dyn (c' :: rest') (dyn_attrs a) PNil) as [e'|[sub' p]] eqn:Er; [|discriminate H].
+      injection H as <-. exact (IH _ _ _ Er).
+Qed.
 
 Section C12.
   Variable veval : vid -> val -> bool.
 
-  (* TO BE PROVED.  Hypotheses may be weakened; report every hypothesis you had to add.
+  (* ---- [out] on a namespace, with the path already split ---- *)
 
-  (1) an accepted emission is stored under its path:
+  (* is the value accepted at the located namespace (ta, tps) under [name]? *)
+  Definition accepts (ta : nattrs) (tps : ports) (name : string) (v : val) : bool :=
+    match ports_get name tps with
+    | Some p => valid_port veval p v
+    | None => valid_dynamic ta [(name, v)]
+    end.
+
+  (* the `dynamic` flag told to listeners *)
+  Definition is_dyn (tps : ports) (name : string) : bool :=
+    match ports_get name tps with Some _ => false | None => true end.
+
+  Definition locate (a : nattrs) (ps : ports) (ns : list string) : exn + (ports * port) :=
+    match ns with
+    | [] => inr (ps, PNs a ps)
+    | _ :: _ => get_port_dyn ns a ps
+    end.
+
+  Lemma out_result : forall a ps outs path v,
+    or_result (out veval (PNs a ps) outs path v) =
+    let ns := removelast (split_path path) in
+    let name := last (split_path path) EmptyString in
+    match locate a ps ns with
+    | inl e => inl e
+    | inr (_, PLeaf _) => inl EType
+    | inr (_, PNs ta tps) =>
+        if accepts ta tps name v
+        then match outputs_insert ns name v outs with
+             | inl e => inl e
+             | inr outs' => inr (outs', is_dyn tps name)
+             end
+        else inl EValue
+    end.
+  Proof.
+    intros a ps outs path v. unfold out, last_and_init, locate, accepts, is_dyn.
+    cbv zeta.
+    set (ns := removelast (split_path path)). set (name := last (split_path path) EmptyString).
+    destruct (match ns with [] => inr (ps, PNs a ps) | _ :: _ => get_port_dyn ns a ps end)
+      as [e|[ps' [la|ta tps]]]; try reflexivity.
+    destruct (ports_get name tps) as [p|]; cbn [fst snd].
+    - destruct (valid_port veval p v); cbn [negb]; [|reflexivity].
+      destruct (outputs_insert ns name v outs); reflexivity.
+    - destruct (valid_dynamic ta [(name, v)]); cbn [negb]; [|reflexivity].
+      destruct (outputs_insert ns name v outs); reflexivity.
+  Qed.
+
+  Lemma out_spec : forall a ps outs path v,
+    or_spec (out veval (PNs a ps) outs path v) =
+    match locate a ps (removelast (split_path path)) with
+    | inl _ => PNs a ps
+    | inr (ps', _) => PNs a ps'
+    end.
+  Proof.
+    intros a ps outs path v. unfold out, last_and_init, locate.
+    cbv zeta.
+    set (ns := removelast (split_path path)). set (name := last (split_path path) EmptyString).
+    destruct (match ns with [] => inr (ps, PNs a ps) | _ :: _ => get_port_dyn ns a ps end)
+      as [e|[ps' [la|ta tps]]]; try reflexivity.
+    destruct (negb _); [reflexivity|].
+    destruct (outputs_insert ns name v outs); reflexivity.
+  Qed.
+
+  Lemma out_ok_insert : forall spec outs path v outs' dyn,
+    or_result (out veval spec outs path v) = inr (outs', dyn) ->
+    outputs_insert (removelast (split_path path)) (last (split_path path) EmptyString) v outs = inr outs'.
+  Proof.
+    intros spec outs path v outs' dyn H. destruct spec as [la|a ps]; [discriminate H|].
+    rewrite out_result in H. cbv zeta in H.
+    destruct (locate a ps (removelast (split_path path))) as [e|[ps' [la|ta tps]]]; try discriminate H.
+    destruct (accepts ta tps _ v); [|discriminate H].
+    destruct (outputs_insert _ _ v outs) as [e|o]; [discriminate H|].
+    injection H as <- _. reflexivity.
+  Qed.
+
+  (* (1) an accepted emission is stored under its path *)
   Theorem out_stores : forall spec outs path v outs' dyn,
     or_result (out veval spec outs path v) = inr (outs', dyn) ->
     lookup_val (split_path path) (VDict outs') = Some v.
+  Proof.
+    intros spec outs path v outs' dyn H. apply out_ok_insert in H.
+    rewrite (split_path_snoc path). exact (outputs_insert_lookup _ _ _ _ _ H).
+  Qed.
 
-  (2) and touches nothing outside the first component of its path:
+  (* (2) and touches nothing outside the first component of its path *)
   Theorem out_frame : forall spec outs path v outs' dyn,
     or_result (out veval spec outs path v) = inr (outs', dyn) ->
     forall k, k <> hd EmptyString (split_path path) -> alist_get k outs' = alist_get k outs.
+  Proof.
+    intros spec outs path v outs' dyn H k Hk. apply out_ok_insert in H.
+    rewrite (split_path_snoc path), hd_snoc in Hk.
+    exact (outputs_insert_frame _ _ _ _ _ H k Hk).
+  Qed.
 
-  (3) error kinds; a value the located port / namespace does not accept is a ValueError:
+  (* (3) error kinds *)
   Theorem out_error_kinds : forall spec outs path v e,
     or_result (out veval spec outs path v) = inl e -> e = EValue \/ e = EType \/ e = EAttribute.
+  Proof.
+    intros spec outs path v e H. destruct spec as [la|a ps].
+    - simpl in H. injection H as <-. right. left. reflexivity.
+    - rewrite out_result in H. cbv zeta in H. unfold locate in H.
+      destruct (removelast (split_path path)) as [|c ns] eqn:Ens.
+      + destruct (accepts a ps _ v); [|injection H as <-; left; reflexivity].
+        simpl in H. discriminate H.
+      + destruct (get_port_dyn (c :: ns) a ps) as [e'|[ps' [la|ta tps]]] eqn:Eg.
+        * injection H as <-. destruct (get_port_dyn_error _ _ _ _ Eg) as [He|He]; auto.
+        * injection H as <-. right. left. reflexivity.
+        * destruct (accepts ta tps _ v); [|injection H as <-; left; reflexivity].
+          destruct (outputs_insert (c :: ns) _ v outs) as [e'|o] eqn:Ei; [|discriminate H].
+          injection H as <-. right. right. exact (outputs_insert_error _ _ _ _ _ Ei).
+  Qed.
+
   Theorem out_declared_port : forall a ps outs name p v,
     good_name name = true -> ports_get name ps = Some p ->
     or_result (out veval (PNs a ps) outs name v) =
       if valid_port veval p v then inr (alist_set name v outs, false) else inl EValue.
+  Proof.
+    intros a ps outs name p v Hname Hget. rewrite out_result.
+    rewrite (split_path_good_name name Hname). simpl.
+    unfold accepts, is_dyn. rewrite Hget. reflexivity.
+  Qed.
+
   Theorem out_undeclared_port : forall a ps outs name v,
     good_name name = true -> ports_get name ps = None ->
     or_result (out veval (PNs a ps) outs name v) =
       if valid_dynamic a [(name, v)] then inr (alist_set name v outs, true) else inl EValue.
-  (and, if you can, the general nested form: state it with get_port_dyn on the namespace components:
-   when get_port_dyn ns a ps = inr (ps', PNs ta tps), the result is EValue iff the value is not accepted
-   by the declared port name of tps / by valid_dynamic ta, else the outputs_insert result.)
+  Proof.
+    intros a ps outs name v Hname Hget. rewrite out_result.
+    rewrite (split_path_good_name name Hname). simpl.
+    unfold accepts, is_dyn. rewrite Hget. reflexivity.
+  Qed.
 
-  (4) key-uniqueness of the outputs is preserved:
+  (* the general nested form: path = ns ++ [name] with ns non-empty *)
+  Theorem out_located : forall a ps outs path v ns name ps' ta tps,
+    split_path path = ns ++ [name] -> ns <> [] ->
+    get_port_dyn ns a ps = inr (ps', PNs ta tps) ->
+    or_spec (out veval (PNs a ps) outs path v) = PNs a ps' /\
+    or_result (out veval (PNs a ps) outs path v) =
+      if match ports_get name tps with
+         | Some p => valid_port veval p v
+         | None => valid_dynamic ta [(name, v)]
+         end
+      then match outputs_insert ns name v outs with
+           | inl e => inl e
+           | inr outs' => inr (outs', match ports_get name tps with Some _ => false | None => true end)
+           end
+      else inl EValue.
+  Proof.
+    intros a ps outs path v ns name ps' ta tps Hsplit Hns Hget.
+    rewrite out_spec, out_result. cbv zeta. rewrite Hsplit.
+    rewrite removelast_last, last_last. unfold locate.
+    destruct ns as [|c ns]; [contradiction Hns; reflexivity|].
+    rewrite Hget. split; reflexivity.
+  Qed.
+
+  (* the other outcomes of locating the namespace *)
+  Theorem out_located_error : forall a ps outs path v ns name e,
+    split_path path = ns ++ [name] -> ns <> [] ->
+    get_port_dyn ns a ps = inl e ->
+    out veval (PNs a ps) outs path v = mk_out_res (PNs a ps) (inl e).
+  Proof.
+    intros a ps outs path v ns name e Hsplit Hns Hget.
+    unfold out, last_and_init. rewrite Hsplit, removelast_last, last_last.
+    destruct ns as [|c ns]; [contradiction Hns; reflexivity|].
+    rewrite Hget. reflexivity.
+  Qed.
+
+  Theorem out_located_leaf : forall a ps outs path v ns name ps' la,
+    split_path path = ns ++ [name] -> ns <> [] ->
+    get_port_dyn ns a ps = inr (ps', PLeaf la) ->
+    out veval (PNs a ps) outs path v = mk_out_res (PNs a ps') (inl EType).
+  Proof.
+    intros a ps outs path v ns name ps' la Hsplit Hns Hget.
+    unfold out, last_and_init. rewrite Hsplit, removelast_last, last_last.
+    destruct ns as [|c ns]; [contradiction Hns; reflexivity|].
+    rewrite Hget. reflexivity.
+  Qed.
+
+  (* (4) key-uniqueness of the outputs is preserved *)
   Theorem out_wf : forall spec outs path v outs' dyn,
     wf_kvs outs = true -> wf_val v = true ->
     or_result (out veval spec outs path v) = inr (outs', dyn) -> wf_kvs outs' = true.
+  Proof.
+    intros spec outs path v outs' dyn Ho Hv H. apply out_ok_insert in H.
+    exact (outputs_insert_wf _ _ _ _ _ Hv Ho H).
+  Qed.
 
-  (5) get_port_dyn only ever adds namespaces: every port present before is still there unchanged
-      (pointwise along existing paths), names stay unique:
+  (* (5) get_port_dyn only ever adds namespaces *)
   Theorem get_port_dyn_preserves : forall comps a ps ps' p,
     get_port_dyn comps a ps = inr (ps', p) ->
     forall k q, ports_get k ps = Some q -> exists q', ports_get k ps' = Some q' /\
       (forall la, q = PLeaf la -> q' = q).
+  Proof.
+    intros comps a ps ps' p H k q Hk. destruct comps as [|c rest]; [discriminate H|].
+    rewrite get_port_dyn_cons in H.
+    destruct (String.eqb c EmptyString); [discriminate H|].
+    destruct (ports_get c ps) as [[la|na sub]|] eqn:Ec.
+    - destruct rest; [|discriminate H]. injection H as <- _. exists q. split; [exact Hk|reflexivity].
+    - destruct rest as [|c' rest'].
+      + injection H as <- _. exists q. split; [exact Hk|reflexivity].
+      + destruct (get_port_dyn (c' :: rest') na sub) as [e'|[sub' p']]; [discriminate H|].
+        injection H as <- _.
+        destruct (String.eqb k c) eqn:Ekc.
+        * apply String.eqb_eq in Ekc. subst k. rewrite Ec in Hk. injection Hk as <-.
+          exists (PNs na sub'). split; [apply ports_get_set_same|].
+          intros la Hla. discriminate Hla.
+        * apply String.eqb_neq in Ekc. exists q. split; [|reflexivity].
+          rewrite ports_get_set_other by exact Ekc. exact Hk.
+    - assert (Hne : k <> c) by (intro Heq; subst k; rewrite Ec in Hk; discriminate Hk).
+      destruct (negb (n_dynamic a)); [discriminate H|].
+      destruct rest as [|c' rest'].
+      + injection H as <- _. exists q. split; [|reflexivity].
+        rewrite ports_get_set_other by exact Hne. exact Hk.
+      + destruct (get_port_dyn (c' :: rest') (dyn_attrs a) PNil) as [e'|[sub' p']]; [discriminate H|].
+        injection H as <- _. exists q. split; [|reflexivity].
+        rewrite ports_get_set_other by exact Hne. exact Hk.
+  Qed.
 
-  (6) success:
+  (* (6) success *)
   Theorem finish_successful_iff : forall spec outs ok,
     finish_successful veval spec outs ok = true <-> ok = true /\ valid_port veval spec (VDict outs) = true.
-  *)
+  Proof.
+    intros spec outs ok. unfold finish_successful. apply andb_true_iff.
+  Qed.
 End C12.
+
+Print Assumptions out_stores.
+Print Assumptions out_frame.
+Print Assumptions out_error_kinds.
+Print Assumptions out_declared_port.
+Print Assumptions out_undeclared_port.
+Print Assumptions out_located.
+Print Assumptions out_located_error.
+Print Assumptions out_located_leaf.
+Print Assumptions out_wf.
+Print Assumptions get_port_dyn_preserves.
+Print Assumptions finish_successful_iff.
